@@ -293,12 +293,8 @@ def _check_condition_events(check, an: Analysis):
                     and len(expr.args) == 1 and isinstance(expr.args[0], ast.Starred) and \
                     not expr.keywords
                 if good:
-                    inner = expr.args[0].value
-                    good = isinstance(inner, (ast.GeneratorExp, ast.ListComp)) and \
-                        len(inner.generators) == 1 and not inner.generators[0].ifs and \
-                        ast.unparse(inner.generators[0].iter) == unobserved and \
-                        ast.unparse(inner.elt) == '%s.__usimpy_flag__' % ast.unparse(
-                            inner.generators[0].target)
+                    good = rules.mapped_sequence(fn.node, expr.args[0]) == (
+                        unobserved, 'x_.__usimpy_flag__', None)
                 if not good:
                     wait_ok = flag('waits-any-unobserved', path, index)
             elif event.kind in ('call', 'enter') and is_call_to(event, 'fail') and \
@@ -351,6 +347,9 @@ def run(check, an: Analysis):
     check.rule('U', 'Environment.until/run')
     an.cls(EVENT)
     # ---- O ------------------------------------------------------------------
+    # every function whose paths write an event's value (the statement itself may sit in
+    # a private helper that is seen through)
+    writers = {}
     for fn, stmt, target, recvs in rules.attribute_stores(an, '_value', EVENT):
         if fn.name == '__init__':
             continue
@@ -359,29 +358,46 @@ def run(check, an: Analysis):
                            '%s:%d' % (fn.module.relpath, stmt.lineno),
                            'an event\'s value is written from outside the event')
             continue
-        callee = Callee(fn, fn.cls.qn)
-        n = 0
+        writers[id(stmt)] = (fn, stmt)
+    entries = []
+    for fn in sorted(an.p.functions.values(), key=lambda f: f.qn):
+        if fn.cls is None or fn.cls.qn != EVENT or isinstance(fn.node, ast.Lambda) or \
+                fn.name == '__init__':
+            continue
+        private = fn.name.startswith('_') and not fn.name.endswith('__')
+        callee = Callee(fn, EVENT)
+        hits = [(path, index) for path in an.paths(callee)
+                for index, event in enumerate(path.events)
+                if event.kind == 'store' and id(event.get('stmt')) in writers]
+        if hits and not (private and rules.call_sites_of(an, fn.qn)):
+            entries.append((fn, callee, hits))
+    covered = set()
+    for fn, callee, hits in entries:
         verdict, bad = True, None
-        for path in an.paths(callee):
-            for index, event in enumerate(path.events):
-                if event.kind == 'store' and event.get('stmt') is stmt:
-                    n += 1
-                    unset = rules.fact_value(event, ('isnone', 'self._value'))
-                    if unset is not True:
-                        verdict = False
-                        bad = bad or (path, index)
-        guard_raises = any(isinstance(n_, ast.If) and equal_bool(
-            n_.test, 'self._value is not None') and any(isinstance(b, ast.Raise)
-                                                        for b in n_.body)
-            for n_ in ast.walk(fn.node))
-        asserted = any(isinstance(n_, ast.Assert) and equal_bool(
-            n_.test, 'self._value is None') for n_ in ast.walk(fn.node))
-        check.instance('O', '%s:write-once' % short(fn.qn), verdict and n > 0 and
-                       (guard_raises or asserted), '%s:%d' % (fn.module.relpath, stmt.lineno),
-                       'the value is written only while unset (%s)' % (
-                           'raises otherwise' if guard_raises else 'usage assertion'),
+        for path, index in hits:
+            covered.add(id(path.events[index].get('stmt')))
+            event = path.events[index]
+            unset = rules.fact_value(event, ('isnone', 'self._value'))
+            if unset is None:
+                unset = rules.path_atoms(path, 0, index).get(('isnone', 'self._value'))
+            if unset is not True:
+                verdict, bad = False, bad or (path, index)
+        # how a second firing is refused: an exception, or only a usage assertion
+        refusing = [p for p in an.paths(callee) if p.kind == 'raise'
+                    and not any(e.kind == 'store' and id(e.get('stmt')) in writers
+                                for e in p.events)
+                    and rules.path_atoms(p).get(('isnone', 'self._value')) is False]
+        asserted = any(e.kind == 'assert' and e.get('key') == ('isnone', 'self._value')
+                       for path, _i in hits for e in path.events)
+        check.instance('O', '%s:write-once' % short(fn.qn), verdict and bool(hits) and
+                       (bool(refusing) or asserted), where_fn(fn),
+                       'the value is written only while unset (%s; %d stores on paths)' % (
+                           'raises otherwise' if refusing else 'usage assertion', len(hits)),
                        path=rules.path_lines(*bad) if bad else None,
-                       assert_only=asserted and not guard_raises, analysed=n)
+                       assert_only=asserted and not refusing, analysed=len(hits))
+    check.instance('O', 'writers-covered', covered == set(writers), where_fn(
+        an.method(EVENT, 'succeed')), 'every statement that writes an event\'s value is '
+        'reached from a checked entry point (%d of %d)' % (len(covered), len(writers)))
     check.floor('O', 3)
     for name in ('succeed', 'fail', 'trigger'):
         callee = an.callee(EVENT, name)
@@ -417,7 +433,7 @@ def run(check, an: Analysis):
         if not path.normal:
             continue
         raised = [i for i, e in enumerate(path.events) if e.kind == 'store'
-                  and e['path'] == 'self.__usimpy_flag__._value'
+                  and rules.text_at(path, e, e.node) == 'self.__usimpy_flag__._value'
                   and isinstance(e['value'], ast.Constant) and e['value'].value is True]
         woke = [i for i, e in enumerate(path.events) if is_call_to(e, '__trigger__')]
         sched = [i for i, e in enumerate(path.events) if e.kind == 'call' and isinstance(
@@ -617,8 +633,8 @@ def run(check, an: Analysis):
     ok = True
     for path in an.paths(push):
         if path.normal:
-            raised = [e for e in path.events if e.kind == 'store' and e['path'] ==
-                      'self.__usimpy_flag__._value']
+            raised = [e for e in path.events if e.kind == 'store' and
+                      rules.text_at(path, e, e.node) == 'self.__usimpy_flag__._value']
             woke = [e for e in path.events if is_call_to(e, '__trigger__')]
             ok &= len(raised) == len(woke)
     check.instance('P', 'InterruptQueue.push:wakes', ok, where_fn(push.fn),
